@@ -243,14 +243,17 @@ Definition norm_profiles (ps : option (list profile)) : list profile :=
                 entry is back after the next update
    q_lead     : update_from_file: a value (or metadata value) whose first word does not fit on the first line is written
                 on continuation lines only; configparser joins "" and the continuation with a line break, midgard
-                turns it into a blank: the value is read back with a leading blank *)
+                turns it into a blank: the value is read back with a leading blank
+   q_comment_cont : ConfigParser treats every line that starts with # or ; as a comment, also a continuation line of a
+                value: a wrapped value loses the line that happens to start with such a word *)
 Record quirks : Set := { q_stale : bool; q_fbsect : bool; q_mkey : bool; q_fmt : bool; q_metanl : bool; q_clear : bool;
-                         q_lead : bool }.
+                         q_lead : bool; q_comment_cont : bool }.
 Definition all_off : quirks :=
   {| q_stale := false; q_fbsect := false; q_mkey := false; q_fmt := false; q_metanl := false; q_clear := false;
-     q_lead := false |}.
+     q_lead := false; q_comment_cont := false |}.
 Definition all_on : quirks :=
-  {| q_stale := true; q_fbsect := true; q_mkey := true; q_fmt := true; q_metanl := true; q_clear := true; q_lead := true |}.
+  {| q_stale := true; q_fbsect := true; q_mkey := true; q_fmt := true; q_metanl := true; q_clear := true; q_lead := true;
+     q_comment_cont := true |}.
 
 Inductive err : Set := ErrSection | ErrEntry | ErrConfig | ErrValue | ErrParse.
 Inductive res (A : Type) : Type := Ok (a : A) | Err (e : err).
@@ -830,12 +833,20 @@ Definition new_line (case_sensitive : bool) (s : rstate) (v : string) (ind : nat
       end
   end.
 
+(* a line that continues the value of the option in progress *)
+Definition is_cont (s : rstate) (line : string) : bool :=
+  match r_sect s, r_opt s with
+  | Some _, Some _ => Nat.ltb (r_indent s) (indent_of line)
+  | _, _ => false
+  end.
+
+(* SPECIFICATION reader: a continuation line belongs to the value, also when it starts with # or ; *)
 Definition read_line (case_sensitive : bool) (st : res rstate) (line : string) : res rstate :=
   match st with
   | Err e => Err e
   | Ok s =>
       let v := strip line in
-      if is_comment v then Ok s                                  (* comment: nothing appended, indent kept *)
+      if (is_comment v && negb (is_cont s line))%bool then Ok s    (* comment: nothing appended, indent kept *)
       else match v with
       | EmptyString =>
           (* empty line: appended to a value in progress; indent_level = maxsize *)
@@ -855,8 +866,15 @@ Definition read_line (case_sensitive : bool) (st : res rstate) (line : string) :
       end
   end.
 
-Definition parse_ini (case_sensitive : bool) (text : string) : res parsed :=
-  match fold_left (read_line case_sensitive) (split_on nl text) (Ok (RState [] None None 0)) with
+(* configparser: every line that starts with # or ; is a comment, continuation lines included *)
+Definition read_line_q (q : quirks) (case_sensitive : bool) (st : res rstate) (line : string) : res rstate :=
+  match st with
+  | Err e => Err e
+  | Ok s => if (q_comment_cont q && is_comment (strip line))%bool then Ok s else read_line case_sensitive st line
+  end.
+
+Definition parse_ini (q : quirks) (case_sensitive : bool) (text : string) : res parsed :=
+  match fold_left (read_line_q q case_sensitive) (split_on nl text) (Ok (RState [] None None 0)) with
   | Ok s => Ok (r_done s)
   | Err e => Err e
   end.
@@ -977,7 +995,7 @@ Definition apply_op (q : quirks) (c : config) (o : op) : config * res unit :=
       end
   | OOptions opts p src allow_new => options_batch q c opts p src allow_new
   | OFile text path allow_new cs =>
-      match parse_ini cs text with
+      match parse_ini q cs text with
       | Err e => (c, Err e)
       | Ok p =>
           let c' := match sget "__vars__" p with
@@ -1126,10 +1144,11 @@ Definition agrees (q : quirks) (k : case) : bool :=
 
 Definition quirks_of_mask (m : nat) : quirks :=
   {| q_stale := Nat.testbit m 0; q_fbsect := Nat.testbit m 1; q_mkey := Nat.testbit m 2; q_fmt := Nat.testbit m 3;
-     q_metanl := Nat.testbit m 4; q_clear := Nat.testbit m 5; q_lead := Nat.testbit m 6 |}.
+     q_metanl := Nat.testbit m 4; q_clear := Nat.testbit m 5; q_lead := Nat.testbit m 6;
+     q_comment_cont := Nat.testbit m 7 |}.
 
 (* subsets ordered by size, so that the smallest explanation is reported *)
-Definition masks : list nat := [1; 2; 4; 8; 16; 32; 64; 3; 5; 6; 9; 10; 12; 17; 18; 20; 24; 33; 34; 36; 40; 48; 65; 66; 68; 72; 80; 96; 7; 11; 13; 14; 19; 21; 22; 25; 26; 28; 35; 37; 38; 41; 42; 44; 49; 50; 52; 56; 67; 69; 70; 73; 74; 76; 81; 82; 84; 88; 97; 98; 100; 104; 112; 15; 23; 27; 29; 30; 39; 43; 45; 46; 51; 53; 54; 57; 58; 60; 71; 75; 77; 78; 83; 85; 86; 89; 90; 92; 99; 101; 102; 105; 106; 108; 113; 114; 116; 120; 31; 47; 55; 59; 61; 62; 79; 87; 91; 93; 94; 103; 107; 109; 110; 115; 117; 118; 121; 122; 124; 63; 95; 111; 119; 123; 125; 126; 127]%nat.
+Definition masks : list nat := [1; 2; 4; 8; 16; 32; 64; 128; 3; 5; 6; 9; 10; 12; 17; 18; 20; 24; 33; 34; 36; 40; 48; 65; 66; 68; 72; 80; 96; 129; 130; 132; 136; 144; 160; 192; 7; 11; 13; 14; 19; 21; 22; 25; 26; 28; 35; 37; 38; 41; 42; 44; 49; 50; 52; 56; 67; 69; 70; 73; 74; 76; 81; 82; 84; 88; 97; 98; 100; 104; 112; 131; 133; 134; 137; 138; 140; 145; 146; 148; 152; 161; 162; 164; 168; 176; 193; 194; 196; 200; 208; 224; 15; 23; 27; 29; 30; 39; 43; 45; 46; 51; 53; 54; 57; 58; 60; 71; 75; 77; 78; 83; 85; 86; 89; 90; 92; 99; 101; 102; 105; 106; 108; 113; 114; 116; 120; 135; 139; 141; 142; 147; 149; 150; 153; 154; 156; 163; 165; 166; 169; 170; 172; 177; 178; 180; 184; 195; 197; 198; 201; 202; 204; 209; 210; 212; 216; 225; 226; 228; 232; 240; 31; 47; 55; 59; 61; 62; 79; 87; 91; 93; 94; 103; 107; 109; 110; 115; 117; 118; 121; 122; 124; 143; 151; 155; 157; 158; 167; 171; 173; 174; 179; 181; 182; 185; 186; 188; 199; 203; 205; 206; 211; 213; 214; 217; 218; 220; 227; 229; 230; 233; 234; 236; 241; 242; 244; 248; 63; 95; 111; 119; 123; 125; 126; 159; 175; 183; 187; 189; 190; 207; 215; 219; 221; 222; 231; 235; 237; 238; 243; 245; 246; 249; 250; 252; 127; 191; 223; 239; 247; 251; 253; 254; 255]%nat.
 
 (* 0 = midgard equals the specification; 100+mask = equals the model with exactly these deviations switched on;
    1 = unexplained *)
